@@ -17,11 +17,11 @@ CHECKS = {
          "Trusted: interpreter; the hook model of hash order (per-set-instance memoized order; complete re-shuffles on table growth not modelled). Programs in which an explored execution falls off the end of the text are outside the quantifier.",
          "DESIGN.md 3 C03"),
  "C09": ("bounded-exhaustive enumeration of statement layouts; oracle = independent locator and token spans known by construction",
-         "17 statement kinds (every node constructor, label, directives, malformed statements, statements that draw a specific diagnostic) x 4 positions x 5 indentations x 3 trailing texts x 3 line companies x 3 line endings x {base, included file} = 18360 layouts: every token of the real lexer, every node range, every parse error and every diagnostic of the full pipeline must have (line, column) equal to the harness locator's values for its raw offsets, lie inside the file on one line, and designate exactly the token(s) the layout generator placed there (register operand, label, or mnemonic through last operand).",
-         "Trusted: locator and the mini-scanner for the 17 statement texts. Zero-based line/column and inclusive end offsets (the convention of the repository's own JSON expectations). CLI rendering of the same positions is checked under C18.",
+         "40 statement kinds (every node constructor, label, directives, malformed statements, statements that draw a specific diagnostic) x 4 positions x 5 indentations x 3 trailing texts x 3 line companies x 3 line endings x {base, included file} = 18360 layouts: every token of the real lexer, every node range, every parse error and every diagnostic of the full pipeline must have (line, column) equal to the harness locator's values for its raw offsets, lie inside the file on one line, and designate exactly the token(s) the layout generator placed there (register operand, label, or mnemonic through last operand).",
+         "Trusted: locator and the mini-scanner for the 40 statement texts. Zero-based line/column and inclusive end offsets (the convention of the repository's own JSON expectations). CLI rendering of the same positions is checked under C18.",
          "DESIGN.md 3 C09"),
  "C10": ("exhaustive hash-order schedule exploration (deviation-bounded, stateless re-execution through the rva_verif choice points) x all file-UUID orders; fresh-seed replays and repeated real-binary runs as secondary net",
-         "20 order-stress programs built from the anchors (several undefined labels, equally near candidate operands, multi-label entries, 2-3 returns, entries with several predecessors, shared tails, 2-3 files with diagnostics in each) plus the program pool: every schedule of the controlled hash-order decisions within the deviation bound (whole tree when small) x every relative order of the file UUIDs must give the same sequence of (code, file, range, title, level, description, related information); no two items of a result are equal; RVParser::run gives the same items; each schedule is replayed twice on freshly parsed input (new random node UUIDs and hash seeds) and the rva binary's --json/--compact/pretty (+-all-files) output is byte-identical across the explored schedules, all file orders and 8/3 runs per mode with true random seeds.",
+         "22 order-stress programs built from the anchors (several undefined labels, equally near candidate operands, multi-label entries, 2-3 returns, entries with several predecessors, shared tails, 2-3 files with diagnostics in each) plus the program pool: every schedule of the controlled hash-order decisions within the deviation bound (whole tree when small) x every relative order of the file UUIDs must give the same sequence of (code, file, range, title, level, description, related information); no two items of a result are equal; RVParser::run gives the same items; each schedule is replayed twice on freshly parsed input (new random node UUIDs and hash seeds) and the rva binary's --json/--compact/pretty (+-all-files) output is byte-identical across the explored schedules, all file orders and 8/3 runs per mode with true random seeds.",
          "Exhaustive only at the hooked iteration site (H2, DFS successor order) and over file-UUID orders; the sites made deterministic by the C10 fixes lost their choice points (H3-H5), so a regression there is caught only by the fresh-seed replays and random-seed runs (sampling, stated as such).",
          "DESIGN.md 3 C10"),
  "C11": ("bounded-exhaustive enumeration of call-graph/label arrangements x hash-order schedules; function table compared with an oracle computed from the AST and from identity-reachability over the final edges",
@@ -33,15 +33,15 @@ CHECKS = {
          "Trusted: the canonical dump covers everything the passes read (states with equal dumps are merged). Canonical hash-order schedule only.",
          "DESIGN.md 3 C12"),
  "C01": ("bounded-exhaustive program enumeration; each program analysed by the real pipeline and executed by a reference RV32IM interpreter with an activation monitor from every initial state; every claim evaluated on every step",
-         "Explicit-state exploration of (program, initial state, step): every program of the kernel family (single-transfer: each of ~1650 instructions after every state-setting prefix of length <= 1 quick / <= 2 thorough; all sequences over a 25-symbol alphabet up to length 3/4; all control-flow sequences over 12/14 symbols up to length 4/5; 10 loop/diamond/irreducible/recursion/multi-return skeletons; each as main program and as called function) is analysed by the real Manager::gen_full_cfg and executed by the harness's interpreter from 8/32 initial states to exit or a 256-step horizon; at every arrival/departure every Constant / Address / entry-value+k claim on registers and stack slots is compared with the machine. The model (interpreter) trace is bound 1:1 to the implementation's CFG nodes.",
+         "Explicit-state exploration of (program, initial state, step): every program of the kernel family (single-transfer: each of ~1650 instructions after every state-setting prefix of length <= 1 quick / <= 2 thorough; all sequences over a 27-symbol alphabet (incl. sub-word stack accesses) up to length 3/4; all control-flow sequences over 12/14 symbols up to length 4/5; 12 loop/diamond/irreducible/recursion/multi-return/exit-ecall skeletons; each as main program and as called function) is analysed by the real Manager::gen_full_cfg and executed by the harness's interpreter from 8/32 initial states to exit or a 256-step horizon; at every arrival/departure every Constant / Address / entry-value+k claim on registers and stack slots is compared with the machine. The model (interpreter) trace is bound 1:1 to the implementation's CFG nodes.",
          "Trusted: the reference interpreter (two cross-checked ALUs) and the activation monitor that stops checking where an execution leaves the property's supported subset. Programs longer than the bounds, immediates outside the alphabets and the un-named claim kinds (memory-at-register, CSR) are not covered.",
          "DESIGN.md 3 C01"),
  "C04": ("bounded-exhaustive enumeration of convention-conforming programs (by construction, confirmed per member by a dynamic convention monitor); oracle: zero diagnostics",
-         "Family S: main plus 1..3 functions over the product of call-graph shapes (chains, fan-out, repeated calls, diamonds, self-recursion) x per-function options (arity 0..2, returns or prints, 6 body skeletons, input ecall, frame slot order, padding, second saved register): every member is executed by the reference interpreter under the convention monitor on every environment answer in {-1,0,1,2} x 2 register fills (sp/ra/saved registers restored from the own frame, only defined registers read, nothing caller-saved alive across call/ecall, every computed value read, every instruction executed) and must then draw zero diagnostics from the whole pipeline (parse errors, CFG errors, all eleven lints).",
+         "Family S: main plus 1..3 functions over the product of call-graph shapes (chains, fan-out, repeated calls, diamonds, self-recursion) x per-function options (arity 0..2, returns or prints, 6 body skeletons, input ecall, frame slot order, padding, second saved register, frame pointer kept in s10): every member is executed by the reference interpreter under the convention monitor on every environment answer in {-1,0,1,2} x 2 register fills (sp/ra/saved registers restored from the own frame, only defined registers read, nothing caller-saved alive across call/ecall, every computed value read, every instruction executed) and must then draw zero diagnostics from the whole pipeline (parse errors, CFG errors, all eleven lints).",
          "Trusted: generator + monitor (a member the monitor rejects fails the run as a machinery class; members with code no explored input reaches are left out and counted). Conforming idioms outside the grammar (frame pointer, stack-passed arguments, tail calls) are not covered.",
          "DESIGN.md 3 C04"),
  "C05": ("bounded-exhaustive enumeration of (clean base program x violation class x injection site); oracle: expected error code exactly on the offending operand/instruction known by construction, violation confirmed dynamically by the convention monitor",
-         "Every 17th (quick) / 2nd (thorough) program of the quick S family x 14 violation classes (saved register / sp / ra not restored, temporary read after a call, register never assigned, dead assignment, write to zero, stack access at or above entry sp, instruction in .data, ecall number from memory, code after an unconditional jump, jump to a function, fall-through into a function, function on the first line) x up to 10 admissible sites: the injected program must draw a diagnostic of the class's code whose raw range is exactly the offending operand or instruction; for dynamic classes the monitor must first observe the violation on an explored execution.",
+         "Every 17th (quick) / 2nd (thorough) program of the quick S family x 17 violation classes (saved register / sp / ra not restored, temporary read after a call, register never assigned, dead assignment, write to zero, stack access at or above entry sp, instruction in .data, ecall number from memory, code after an unconditional jump, jump to a function, fall-through into a function, function on the first line, never-assigned register updated in place x2, saved register read before assignment) x up to 10 admissible sites: the injected program must draw a diagnostic of the class's code whose raw range is exactly the offending operand or instruction; for dynamic classes the monitor must first observe the violation on an explored execution.",
          "Trusted: injection sites computed on the harness AST; single injections into clean bases. Accepted designations are listed per class in DESIGN.md (implicit ra -> mnemonic; unbalanced sp -> any sp-writing instruction of the function).",
          "DESIGN.md 3 C05"),
  "C06": ("bounded-exhaustive enumeration of hostile inputs (strings, token sequences, mutations, include graphs x reader fault sequences, scaled repetitions, CLI modes) with crash/hang attribution per case in worker subprocesses",
@@ -49,8 +49,8 @@ CHECKS = {
          "Termination is decided by work bounds (pass sweeps <= 4*nodes+32, <= 64 import requests) and wall watchdogs (10 s CLI, 120 s per case); polynomial time is checked as absolute envelopes at three scales, not proved.",
          "DESIGN.md 3 C06"),
  "C07": ("bounded-exhaustive enumeration of files over a line alphabet; coverage oracle by independent locator, containment oracle differential (file vs file with the bad line deleted)",
-         "All files of 1..4 (quick) / 1..5 (thorough) lines over 14 line kinds (7 well-formed, 7 malformed) x {LF, CRLF} x {final newline, none} x {single file, tail in an included file} go through the real lexer+parser; every line with content must be the line (by raw offset, via the harness's own locator) of a node or of a parse error, well-formed lines draw no error, and for every malformed line the nodes/errors of all other lines equal those of the file with that line deleted.",
-         "Trusted: locator; the 14 line kinds are representatives (one statement per line).",
+         "All files of 1..4 (quick) / 1..5 (thorough) lines over 17 line kinds (8 well-formed, 9 malformed) x {LF, CRLF} x {final newline, none} x {single file, tail in an included file} go through the real lexer+parser; every line with content must be the line (by raw offset, via the harness's own locator) of a node or of a parse error, well-formed lines draw no error, and for every malformed line the nodes/errors of all other lines equal those of the file with that line deleted.",
+         "Trusted: locator; the 17 line kinds are representatives (one statement per line).",
          "DESIGN.md 3 C07"),
  "C08": ("bounded-exhaustive enumeration of the decode table and folding grid against an independent RV32IM reference (explicit-state, model = manual's decode table + ALU)",
          "Complete enumeration of a finite space: every entry of a decode table transcribed from the RISC-V manual (mnemonic x operand form x 7 registers per position x boundary immediates; ~13k texts) is parsed by the real parser and compared with the manual's meaning - structurally, or, for pseudo-instructions, by executing both on every pair of a 66-value boundary grid; every foldable mnemonic x every grid pair goes through the real MathOp::operate in a release and an overflow-checked build. Model traces (expected instruction / ALU result) are compared 1:1 with the implementation.",
@@ -58,7 +58,7 @@ CHECKS = {
          "DESIGN.md 3 C08"),
 
  "C13": ("bounded-exhaustive enumeration of (program x subset of meaning-preserving rewrites); relational oracle: diagnostic multiset by (code, statement index, operand role) invariant",
-         "Program pool (every 293rd / 13th member of the quick S family, clean and with one injected violation of each of 14 classes) x every compatible subset of <= 2 / <= 3 of 13 rewrite kinds (spacing, tabs, commas removed/doubled, comments, blank lines, mnemonic case, xN register names, hex/binary immediates, label placement, omitted zero offset, pseudo-instruction vs expansion), applied at all sites by a styled printer working on the harness AST; the multiset of (error code, statement index, semantic operand role) of the real pipeline's diagnostics must equal the plain rendering's.",
+         "Program pool (every 293rd / 13th member of the quick S family, clean and with one injected violation of each of 17 classes) x every compatible subset of <= 2 / <= 3 of 13 rewrite kinds (spacing, tabs, commas removed/doubled, comments, blank lines, mnemonic case, xN register names, hex/binary immediates, label placement, omitted zero offset, pseudo-instruction vs expansion), applied at all sites by a styled printer working on the harness AST; the multiset of (error code, statement index, semantic operand role) of the real pipeline's diagnostics must equal the plain rendering's.",
          "Trusted: styled printer and role mapping (implicit registers of pseudo-instructions are identified with the explicit operand of their expansion). Rewrites outside the list (macros, .eqv) are unsupported by the tool.",
          "DESIGN.md 3 C13"),
  "C14": ("bounded-exhaustive enumeration of register-class permutation orbits and label renamings per template; relational (equivariance) oracle",
@@ -78,7 +78,7 @@ CHECKS = {
          "Trusted: the harness's literal semantics (accept iff well-formed and -2^31 <= v <= 2^32-1; value v mod 2^32; lui 0..2^20-1). Values between the boundary points are not enumerated. Leading-zero decimals, negative lui operands and CSR numbers > 4095 get no verdict.",
          "DESIGN.md 3 C17"),
  "C18": ("bounded-exhaustive enumeration of (program x 16 CLI flag configurations) with format parsers; channel-agreement oracle against the library entry point",
-         "The 20 order-stress programs (incl. multi-file), one file per malformed line kind, the analysis-failure programs, tab-indented code and the program pool x all 16 combinations of --json/--compact/--no-color/--all-files of the rva binary plus RVParser::run: parsers for the compact line grammar, the pretty block grammar and the JSON shape extract (severity, title, file, line, columns); for equal file selection all channels must agree with the library; JSON must have exactly the documented keys and consistent raw offsets; titles non-empty; severity fixed per code; items sorted within a file; no escape sequences under --no-color; correct 'other files' counter; every pretty excerpt shows the item's line with the marker under the reported columns and of the reported length.",
+         "The 22 order-stress programs (incl. multi-file), one file per malformed line kind, the analysis-failure programs, tab-indented code and the program pool x all 16 combinations of --json/--compact/--no-color/--all-files of the rva binary plus RVParser::run: parsers for the compact line grammar, the pretty block grammar and the JSON shape extract (severity, title, file, line, columns); for equal file selection all channels must agree with the library; JSON must have exactly the documented keys and consistent raw offsets; titles non-empty; severity fixed per code; items sorted within a file; no escape sequences under --no-color; correct 'other files' counter; every pretty excerpt shows the item's line with the marker under the reported columns and of the reported length.",
          "Trusted: the three format parsers. JSON is compared with the all-files selection (it has no base-only selection). File-UUID order independence of the same outputs is decided under C10.",
          "DESIGN.md 3 C18"),
  "C19": ("bounded-exhaustive enumeration of dump values (all variants x boundary parameters, all pairs for injectivity) and of kernel-program dumps with single-fact perturbations",
